@@ -15,7 +15,7 @@ func init() {
 		ID: "C02", Level: "exploration", PanicClause: "C02.panic",
 		Cases: func(tier string) int {
 			if tier == "quick" {
-				return 1600
+				return 2400
 			}
 			return 60000
 		},
